@@ -236,6 +236,9 @@ def alphabet(B, has_lines, rng, per_die_cap=10):
                 if a.ref is not None and not isinstance(a.ref, tuple) and a.name != G.AT_SIBLING:
                     ops.append(('attr', U.off, d.off, None, a.name))
     ops.append(('refaddr', None, rng.choice(dies)[1].off))
+    # DWARF 5 type units live in .debug_info: the signature table over them is built lazily
+    for U in [U for U in B.units if getattr(U, 'ut', None) in ('type', 'split_type')][:2]:
+        ops.append(('die_sig', U.signature))
     if B.tunits:
         ops.append(('tus',))
         for T in B.tunits[:2]:
